@@ -19,10 +19,10 @@ import (
 
 // Alpha describes which events are enabled in a scenario.
 type Alpha struct {
-	NoEDS     bool     // do not offer R_eds
-	PT        bool     // offer R_pt
-	Settings  bool     // offer R_set
-	NoKubelet bool     // do not offer ready/gone/gc
+	NoEDS     bool // do not offer R_eds
+	PT        bool // offer R_pt
+	Settings  bool // offer R_set
+	NoKubelet bool // do not offer ready/gone/gc
 	// SpecEdits: deviation: other user edits of the spec: "drop-canary" removes spec.strategy.canary (a complete,
 	// defaulted spec remains), "canary-replicas=<v>" changes spec.strategy.canary.replicas
 	SpecEdits []string
